@@ -47,8 +47,8 @@ func (s PathSet) Add(p string) bool {
 	}
 	// absorbed by a wildcard prefix?
 	for q := range s {
-		if strings.HasSuffix(q, "*") && strings.HasPrefix(p, strings.TrimSuffix(q, "*")) {
-			return false
+		if base := strings.TrimSuffix(q, "*"); strings.HasSuffix(q, "*") && strings.HasPrefix(p, base) && len(strings.TrimSuffix(p, "*")) > len(base) {
+			return false // covered: "σ*" stands for every path strictly below σ
 		}
 	}
 	s[p] = true
@@ -70,13 +70,16 @@ func (s PathSet) Sub(prefix string) PathSet {
 	out := PathSet{}
 	for p := range s {
 		if strings.HasSuffix(p, "*") {
+			// "σ*": every reference found strictly below σ points into the region
 			base := strings.TrimSuffix(p, "*")
-			if strings.HasPrefix(prefix, base) || strings.HasPrefix(base, prefix) {
-				if strings.HasPrefix(base, prefix) {
-					out[base[len(prefix):]+"*"] = true
-				} else {
-					out["*"] = true
+			switch {
+			case strings.HasPrefix(prefix, base):
+				out["*"] = true
+				if len(prefix) > len(base) {
+					out[""] = true
 				}
+			case strings.HasPrefix(base, prefix):
+				out[base[len(prefix):]+"*"] = true
 			}
 			continue
 		}
@@ -731,24 +734,40 @@ func (t *Taint) builtin(c *tctx, call ssa.CallInstruction, bi *ssa.Builtin, args
 
 // reportWrites invokes OnWrite for write instructions with the (stable) taint of the target.
 func (t *Taint) reportWrites(c *tctx, in ssa.Instruction) {
-	locTaint := func(addr ssa.Value) PathSet {
+	var locTaintP func(addr ssa.Value, extra string) PathSet
+	locTaint := func(addr ssa.Value) PathSet { return locTaintP(addr, "") }
+	// elements of a slice/map value (copy destination, append base, sorted slice, PutUint target)
+	elemTaint := func(v ssa.Value) PathSet { return locTaintP(v, "[]") }
+	locTaintP = func(addr ssa.Value, extra string) PathSet {
 		root, path := valuePath(addr)
-		s := c.taint[root]
+		path += extra
 		out := PathSet{}
+		if _, isGlobal := root.(*ssa.Global); isGlobal {
+			out["package-level variable"] = true
+			return out
+		}
+		s := c.taint[root]
 		if s == nil {
 			return out
 		}
-		// the location is inside tainted memory when a prefix of its path is tainted as a
-		// reference ("" at that prefix) or by a wildcard
+		// The written location (root, path) lies in the region when the path passes *through* a
+		// reference that points into the region: some tainted slot τ is a proper prefix of path.
+		// Writing the slot that holds such a reference (path == τ) only changes the local holder.
 		for p := range s {
 			if strings.HasSuffix(p, "*") {
-				if strings.HasPrefix(path, strings.TrimSuffix(p, "*")) {
-					out["*"] = true
+				base := strings.TrimSuffix(p, "*")
+				if !strings.HasPrefix(path, base) {
+					continue
+				}
+				// need a slot τ with base < τ < path (component boundaries) of reference type
+				for _, tau := range properPrefixes(path) {
+					if len(tau) > len(base) && slotIsRef(root.Type(), tau) {
+						out[tau+" (shared)"] = true
+					}
 				}
 				continue
 			}
-			if p == "" || strings.HasPrefix(path, p) && pathBoundary(path, len(p)) {
-				// p is a reference held at prefix p pointing into the region: writing below it writes the region
+			if len(p) < len(path) && strings.HasPrefix(path, p) && pathBoundary(path, len(p)) {
 				out[p] = true
 			}
 		}
@@ -760,22 +779,22 @@ func (t *Taint) reportWrites(c *tctx, in ssa.Instruction) {
 			t.OnWrite(c.fn, in, lt, "store")
 		}
 	case *ssa.MapUpdate:
-		if lt := locTaint(x.Map); len(lt) > 0 {
+		if lt := elemTaint(x.Map); len(lt) > 0 {
 			t.OnWrite(c.fn, in, lt, "map update")
 		}
 	case *ssa.Call:
 		if bi, ok := x.Call.Value.(*ssa.Builtin); ok {
 			switch bi.Name() {
 			case "copy":
-				if lt := locTaint(x.Call.Args[0]); len(lt) > 0 {
+				if lt := elemTaint(x.Call.Args[0]); len(lt) > 0 {
 					t.OnWrite(c.fn, in, lt, "copy destination")
 				}
 			case "append":
-				if lt := locTaint(x.Call.Args[0]); len(lt) > 0 && !ExactCap(x.Call.Args[0]) {
+				if lt := elemTaint(x.Call.Args[0]); len(lt) > 0 && !ExactCap(x.Call.Args[0]) {
 					t.OnWrite(c.fn, in, lt, "append onto a shared slice with possible spare capacity")
 				}
 			case "delete", "clear":
-				if lt := locTaint(x.Call.Args[0]); len(lt) > 0 {
+				if lt := elemTaint(x.Call.Args[0]); len(lt) > 0 {
 					t.OnWrite(c.fn, in, lt, bi.Name())
 				}
 			}
@@ -786,7 +805,7 @@ func (t *Taint) reportWrites(c *tctx, in ssa.Instruction) {
 			if k := mutatedArg(callee); k >= 0 {
 				args := callArgs(x)
 				if k < len(args) {
-					if lt := locTaint(args[k]); len(lt) > 0 {
+					if lt := elemTaint(args[k]); len(lt) > 0 {
 						t.OnWrite(c.fn, in, lt, "argument mutated by "+FnKey(callee))
 					}
 				}
@@ -860,4 +879,92 @@ func elemCarriesRefs(t types.Type) bool {
 		return false // string
 	}
 	return true
+}
+
+// properPrefixes lists the proper prefixes of an access path at component boundaries (including "").
+func properPrefixes(path string) []string {
+	var out []string
+	for i := 0; i < len(path); i++ {
+		if path[i] == '.' || (path[i] == '[' && (i == 0 || true)) {
+			out = append(out, path[:i])
+		}
+	}
+	// de-duplicate
+	seen := map[string]bool{}
+	var res []string
+	for _, p := range out {
+		if !seen[p] {
+			seen[p] = true
+			res = append(res, p)
+		}
+	}
+	return res
+}
+
+// slotIsRef reports whether the slot designated by path below a value of type t holds a
+// reference (pointer, slice, map, interface, chan, func). Pointers on the way are dereferenced
+// transparently, as in valuePath. The empty path designates the root value itself.
+func slotIsRef(t types.Type, path string) bool {
+	cur := t
+	rest := path
+	for {
+		if rest == "" {
+			switch cur.Underlying().(type) {
+			case *types.Pointer, *types.Slice, *types.Map, *types.Interface, *types.Chan, *types.Signature:
+				return true
+			}
+			return false
+		}
+		// transparent deref
+		for {
+			if pt, ok := cur.Underlying().(*types.Pointer); ok {
+				cur = pt.Elem()
+				continue
+			}
+			break
+		}
+		if strings.HasPrefix(rest, "[]") {
+			switch u := cur.Underlying().(type) {
+			case *types.Slice:
+				cur = u.Elem()
+			case *types.Array:
+				cur = u.Elem()
+			case *types.Map:
+				cur = u.Elem()
+			default:
+				return true // unknown shape: be conservative
+			}
+			rest = rest[2:]
+			continue
+		}
+		if strings.HasPrefix(rest, ".") {
+			name := rest[1:]
+			end := len(name)
+			for i := 0; i < len(name); i++ {
+				if name[i] == '.' || name[i] == '[' {
+					end = i
+					break
+				}
+			}
+			fname := name[:end]
+			st, ok := cur.Underlying().(*types.Struct)
+			if !ok {
+				return true
+			}
+			found := false
+			for i := 0; i < st.NumFields(); i++ {
+				if st.Field(i).Name() == fname {
+					cur = st.Field(i).Type()
+					found = true
+					break
+				}
+			}
+			if !found {
+				return true
+			}
+			rest = rest[1+end:]
+			continue
+		}
+		return true
+	}
 }
